@@ -21,7 +21,7 @@ RULE = (
     "(d=3 quick: one per conjugacy class + 2); torus translations. Non-trivial: >=1 non-zero output block and g != e; "
     "a layer returning no blocks is not counted. Distinct by configuration."
 )
-RULE += " Also: equal-channel and wide (64) layers, single-pixel banks, long-reach dilation on 2-4 pixel tori (every 6th case), structured special parameter values (every 5th case), lattice mode; flags x padding by a covering schedule."
+RULE += " Strata of the layer generator: high tensor orders through the single-pixel bank (d=3, (2,0),(3,1) -> (3,1),(2,0): filter orders 4 and 5), hand-merged banks with 3x3 and 5x5 filter types. Also: equal-channel and wide (64) layers, single-pixel banks, long-reach dilation on 2-4 pixel tori (every 6th case), structured special parameter values (every 5th case), lattice mode; flags x padding by a covering schedule."
 ASSUMPTIONS = ["reference action; harness-built invariant banks (vmon/ref/invariant.py)", "tolerance: defect <= 1e-4 held, >= 1e-3 violated, between: re-drawn"]
 ANCHORS = ["ginjax.ml.layers:ConvContract.__init__", "ginjax.ml.layers:ConvContract.individual_convolve", "ginjax.ml.layers:ConvContract.__call__"]
 MIN_NONTRIVIAL = {"quick": 30, "thorough": 400}
@@ -74,6 +74,7 @@ def run(case, ctx):
     if grp != "B":
         cfg["M"] = 3 if cfg["M"] == 5 else cfg["M"]
     key = {k: cfg[k] for k in ("D", "M", "in_sig", "out_sig", "drop", "bias", "padding", "lhs", "rhs", "torus", "sp")}
+    key["mixed_M"], key["high_order"] = cfg.get("mixed_M"), bool(cfg.get("high_order"))
     key["group"] = grp
     key["bank"] = case["bank"]
     sink = io.StringIO()
@@ -146,7 +147,7 @@ def run(case, ctx):
         viols.append(viol(f"layer-exception-{type(e).__name__}", f"{type(e).__name__}: {str(e)[:300]}; {key}; {traceback.format_exc()[-400:]}"))
         nontrivial = True
     return result(key, viols, nontrivial, evals=evals, noise=noise, obs={"paired_layer_executions": evals},
-                  hist={"D": D, "M": cfg["M"], "group": grp, "bank": case["bank"], "operands": "integer-lattice" if case["i"] % 3 == 2 else "random-reals", "bias": str(cfg["bias"]), "pad_kind": cfg["pad_kind"] + ("+lhs" if cfg["lhs"] else ""), "torus_kind": cfg["torus_kind"], "square": len(set(cfg["sp"])) == 1},
+                  hist={"D": D, "M": ("mixed" if cfg.get("mixed_M") else ("1-high-order" if cfg.get("high_order") else cfg["M"])), "group": grp, "bank": case["bank"], "operands": "integer-lattice" if case["i"] % 3 == 2 else "random-reals", "bias": str(cfg["bias"]), "pad_kind": cfg["pad_kind"] + ("+lhs" if cfg["lhs"] else ""), "torus_kind": cfg["torus_kind"], "square": len(set(cfg["sp"])) == 1},
                   sample={"cfg": key, "noise": noise})
 
 
